@@ -232,6 +232,11 @@ func processPoints(points []Point, closed bool) (
 	var dir int
 	var a, b, c Point
 	var cwc float64
+	// a repeated closing point is not a corner of its own
+	n := len(points)
+	if closed && points[n-1] == points[0] {
+		n--
+	}
 
 	for i := 0; i < len(points); i++ {
 		// process the rectangle inflation
@@ -251,11 +256,14 @@ func processPoints(points []Point, closed bool) (
 		}
 
 		// gather some point positions for concave and clockwise detection
+		if i >= n {
+			continue
+		}
 		a = points[i]
-		if i == len(points)-1 {
+		if i == n-1 {
 			b = points[0]
 			c = points[1]
-		} else if i == len(points)-2 {
+		} else if i == n-2 {
 			b = points[i+1]
 			c = points[0]
 		} else {
